@@ -321,6 +321,10 @@ def oracle_inventory(inp):
 # controller).  Device-side steps: 'dev_set' (the FRU behind an id is replaced / resized).
 # Every client step is judged against the state of the addressed controller AT THAT MOMENT,
 # which the oracle keeps itself (so a shrunk history is judged as correctly as the original).
+class NoProgress(RuntimeError):
+    pass
+
+
 class Controllers:
     """routes a request to the FRU device of the controller the request's target names"""
 
@@ -328,7 +332,13 @@ class Controllers:
         self.devs = {int(a): FruDevice({int(k): bytes.fromhex(v) for k, v in c['mems'].items()}, limit, rej,
                                        max_requests=300000) for a, c in ctrl.items()}
 
+    budget = None       # requests the current client step may still issue (None: unlimited)
+
     def __call__(self, netfn, cmd, lun, data, req):
+        if self.budget is not None:
+            self.budget -= 1
+            if self.budget < 0:
+                raise NoProgress('step issued more requests than any correct transfer of this size needs')
         addr = getattr(getattr(req, 'target', None), 'ipmb_address', None)
         dev = self.devs.get(addr)
         if dev is None:
@@ -372,6 +382,12 @@ def exec_history(inp):
             if d is not None:
                 d.mems[int(c['id'])] = bytearray(bytes.fromhex(c['mem']))
             continue
+        if c['op'] == 'dev_ack':
+            # the k-th chunk of the NEXT write to this controller is acknowledged with w bytes
+            d = net.devs.get(int(c['addr']))
+            if d is not None:
+                d.acks = {d.writes + int(k): w for k, w in c['acks'].items()}
+            continue
         o = c.get('obj', 'A')
         if o not in objs:
             objs[o] = F.connect(net)
@@ -385,12 +401,18 @@ def exec_history(inp):
             wls[o] = c['wl']
         dev = net.devs.get(tgt[o])
         before = {k: bytes(v) for k, v in dev.mems.items()} if dev else {}
+        acks = {k - dev.writes: w for k, w in dev.acks.items()} if dev and c['op'] == 'write' else {}
         start = len(itf.log)
+        # no correct step needs more than ~ (bytes/1 + back-off) requests per transfer, five transfers
+        net.budget = 6 * (max([len(v) for v in before.values()] + [0]) + 100)
         try:
             out = ('ok', _apply_call(ipmi, c))
         except Exception as e:  # noqa
             out = ('err', e)
-        yield n, c, out, itf.log[start:], before, dev, wls[o], tgt[o]
+        net.budget = None
+        if dev and c['op'] == 'write':
+            dev.acks = {}
+        yield n, c, out, itf.log[start:], before, dev, wls[o], tgt[o], acks
 
 
 def image_well_formed(img):
@@ -422,11 +444,14 @@ def image_well_formed(img):
     return True
 
 
-def judge_fru_call(c, out, seg, ref, dev, wl):
+def judge_fru_call(c, out, seg, ref, dev, wl, acks=None):
     """(failure class, message) or None; ref = the oracle's own copy of the addressed controller's
     memories, updated here by writes"""
     from pyipmi.errors import CompletionCodeError
     i = c['id'] if c.get('id') is not None else 0
+    if out[0] == 'err' and isinstance(out[1], NoProgress):
+        return 'no-progress', 'no progress: %d requests issued and still not finished (last: %s)' % (
+            len(seg), seg[-1].data.hex() if seg else '-')
     bad = [x for x in seg if _req_id(x) != i]
     if bad:
         return 'wrong-fru-id', 'request %s addresses FRU %s, not %d' % (bad[0].data.hex(), _req_id(bad[0]), i)
@@ -451,15 +476,21 @@ def judge_fru_call(c, out, seg, ref, dev, wl):
         data, off = bytes.fromhex(c['data']), c.get('off') or 0
         m = ref.setdefault(i, bytearray())
         fail = False
-        for k in range(0, len(data), wl):
+        for j, k in enumerate(range(0, len(data), wl)):
             ch = data[k:k + wl]
             if off + k + len(ch) > len(m):
                 fail = True
                 break
-            m[off + k:off + k + len(ch)] = ch
+            w = (acks or {}).get(j, len(ch))
+            st = ch[:w]
+            m[off + k:off + k + len(st)] = st
+            if w != len(ch):        # acknowledged another count: must be reported, nothing further sent
+                fail = True
+                break
         if fail != (out[0] == 'err'):
-            return 'write-outcome', ('raised %r although every chunk fits' % (out[1],) if out[0] == 'err'
-                                     else 'no error although a chunk lies outside the %d bytes of FRU %d' % (len(m), i))
+            return 'write-outcome', ('raised %r although every chunk fits and is acknowledged in full' % (out[1],)
+                                     if out[0] == 'err' else
+                                     'no error although a chunk lies outside the %d bytes of FRU %d or was acknowledged short' % (len(m), i))
         for k, v in ref.items():
             if bytes(dev.mems.get(k, b'')) != bytes(v):
                 return 'write-memory', 'memory of FRU %d differs from the expected content' % k
@@ -486,10 +517,10 @@ def oracle_fru_seq(inp):
                 pending[n] = True
                 if int(c['addr']) in ref:
                     ref[int(c['addr'])][int(c['id'])] = bytearray(bytes.fromhex(c['mem']))
-    for n, c, out, seg, before, dev, wl, addr in exec_history(inp):
+    for n, c, out, seg, before, dev, wl, addr, acks in exec_history(inp):
         settle(n)
         try:
-            r = judge_fru_call(c, out, seg, ref.get(addr, {}), dev, wl)
+            r = judge_fru_call(c, out, seg, ref.get(addr, {}), dev, wl, acks)
         except Exception as e:  # noqa
             r = ('unjudgeable', 'result could not be examined: %r' % (e,))
         if r and inp.get('only_key') in (None, r[0]):
@@ -823,6 +854,8 @@ def run(ctx):
                     off = rng.randrange(end, size - 1)
                     data = rnd(rng.randrange(1, min(70, size - off) + 1))
                     c.update(off=off, data=data.hex(), wl=rng.choice([None, None, 1, 7, 16, 32, 200]))
+                    if c['wl'] is not None:
+                        wlnow[obj] = c['wl']
                     m = bytearray(mem)
                     m[off:off + len(data)] = data
                     cur[tgt[obj]][i if i is not None else 0] = bytes(m)
@@ -840,10 +873,61 @@ def run(ctx):
             tgt[obj] = addrs[1] if tgt[obj] == addrs[0] else addrs[0]
             calls.append({'op': 'target', 'obj': obj, 'addr': tgt[obj]})
 
+        def failing_step(obj=None, kind=None):
+            """a step that must fail, from the state the controllers are in"""
+            obj = obj or rng.choice('AAB')
+            kind = kind or rng.choice(['range-past-end', 'range-past-end', 'unknown-id', 'write-past-end', 'short-ack'])
+            i = rng.choice(ids + [None])
+            mem = cur[tgt[obj]][i if i is not None else 0]
+            size = len(mem)
+            if kind == 'range-past-end':          # rejected with 0xC9 at every request size
+                off = rng.choice([size, size + 1, size + 40, max(0, size - 3)])
+                calls.append({'op': 'read', 'id': i, 'obj': obj, 'off': off, 'cnt': rng.choice([4, 5, 17, 32, 33, 60])})
+            elif kind == 'unknown-id':            # a FRU id the controller does not have: empty area
+                j = rng.choice([x for x in range(1, 256) if x not in ids])
+                calls.append({'op': 'read', 'id': j, 'obj': obj, 'off': rng.choice([0, 8]), 'cnt': rng.choice([1, 8, 40])})
+            elif kind == 'write-past-end':
+                calls.append({'op': 'write', 'id': i, 'obj': obj, 'off': max(0, size - 5), 'data': rnd(40).hex(),
+                              'wl': rng.choice([None, 4, 16])})
+                # chunks that fit are stored before the refused one: the generator's view follows the oracle's rule
+                wl_eff = calls[-1]['wl']
+                if wl_eff is not None:
+                    wlnow[obj] = wl_eff
+                m = bytearray(mem)
+                data = bytes.fromhex(calls[-1]['data'])
+                for k in range(0, len(data), wlnow[obj]):
+                    ch = data[k:k + wlnow[obj]]
+                    if size - 5 + k + len(ch) > size:
+                        break
+                    m[size - 5 + k:size - 5 + k + len(ch)] = ch
+                cur[tgt[obj]][i if i is not None else 0] = bytes(m)
+            else:                                 # the device acknowledges one chunk short / long
+                lay = image_layout(mem)
+                end = max([8] + [o + n for (o, n) in lay.values()])
+                if size - end < 40:
+                    return failing_step(obj, 'range-past-end')
+                wl_eff = rng.choice([4, 16])
+                wlnow[obj] = wl_eff
+                data = rnd(3 * wl_eff + 2)
+                k = rng.randrange(0, 4)
+                clen = len(data[k * wl_eff:(k + 1) * wl_eff])
+                w = rng.choice([x for x in (0, clen - 1, clen + 1) if x != clen and x >= 0])
+                calls.append({'op': 'dev_ack', 'addr': tgt[obj], 'acks': {str(k): w}})
+                calls.append({'op': 'write', 'id': i, 'obj': obj, 'off': end, 'data': data.hex(), 'wl': wl_eff})
+                m = bytearray(mem)
+                for j in range(0, k):
+                    m[end + j * wl_eff:end + (j + 1) * wl_eff] = data[j * wl_eff:(j + 1) * wl_eff]
+                st = data[k * wl_eff:(k + 1) * wl_eff][:w]
+                m[end + k * wl_eff:end + k * wl_eff + len(st)] = st
+                cur[tgt[obj]][i if i is not None else 0] = bytes(m)
+
+        wlnow = {'A': 16, 'B': 16}
         for _ in range(rng.randrange(8, 16)):
             r = rng.random()
             if r < 0.12:
                 dev_set(rng.choice(addrs), rng.choice(ids))
+            elif r < 0.3:
+                failing_step()
             elif r < 0.22:
                 switch(rng.choice('AB'))
             else:
@@ -856,6 +940,12 @@ def run(ctx):
             if w['op'] == 'write':
                 calls.append({'op': 'read', 'id': i, 'obj': obj, 'off': w['off'], 'cnt': len(w['data']) // 2})
                 calls.append({'op': 'full', 'id': i, 'obj': rng.choice('AB')})
+        # a step that must fail, then ordinary operations on the SAME object
+        for pat in range(2):
+            obj = rng.choice('AB')
+            failing_step(obj)
+            client_call(rng.choice(['read', 'whole', 'full']), obj)
+            client_call(None, obj)
         # directed patterns on ONE object: full read / size / inventory of an id, then the FRU behind that
         # id changes on the device side (replaced, or the target is switched), then the same again
         for pat in range(2):
@@ -880,10 +970,10 @@ def run(ctx):
                 fails[key] = C.Violation(key=key, what=(_fru_seq(inp2) or r[0]) + ' [history of %d step(s)]' % len(seq),
                                          replay={'oracle': 'fru_seq', 'input': inp2})
         # correspondence: every client step of the history against the stateless model and the Gallina device
-        for n, c, out, seg, before, dev, wl, addr in exec_history(inp):
+        for n, c, out, seg, before, dev, wl, addr, acks in exec_history(inp):
             i = c['id'] if c.get('id') is not None else 0
             after = c_mems({k: bytes(v) for k, v in dev.mems.items()})
-            devt = 'chk_dev %s %d %d [] ex %s' % (c_mems(before), limit, rej, after)
+            devt = 'chk_dev %s %d %d %s ex %s' % (c_mems(before), limit, rej, c_acks(acks), after)
             if c['op'] == 'read':
                 t = 'chk_read %s %d ex %s' % (c_rng(c.get('off'), c.get('cnt')), i, c_res(out, C.c_hex))
             elif c['op'] == 'full':
